@@ -403,6 +403,31 @@ def _returns_to_assign(block: List[ast.stmt], make) -> List[ast.stmt]:
     return out
 
 
+def _loop_const_shape(body: List[ast.stmt]) -> bool:
+    """`...; for/while ...: (if c: return K)*; ...; return W` with constants K, W and the early
+    returns directly in one top-level loop: inlined as `t = W; ...; loop with t = K; break`."""
+    if not body or not isinstance(body[-1], ast.Return) or not isinstance(
+            body[-1].value, ast.Constant):
+        return False
+    loops_with_ret = []
+    for st in body[:-1]:
+        rets = [x for x in _walk_scope(st) if isinstance(x, ast.Return)]
+        if not rets:
+            continue
+        if not isinstance(st, (ast.For, ast.While)) or st.orelse:
+            return False
+        if not all(isinstance(r.value, ast.Constant) for r in rets):
+            return False
+        # no return inside a nested loop / try / with (break would bind differently)
+        for inner in _walk_scope(st):
+            if inner is not st and isinstance(inner, (ast.For, ast.While, ast.Try, ast.With)) \
+                    and any(isinstance(x, ast.Return) for x in _walk_scope(inner)):
+                return False
+        loops_with_ret.append(st)
+    # must be the last statement before the final return: a break skips what follows the loop
+    return len(loops_with_ret) == 1 and body[-2] is loops_with_ret[0]
+
+
 def _is_procedure(body: List[ast.stmt]) -> bool:
     body = _strip_doc(body)
     if not body:
@@ -431,6 +456,7 @@ class _Helper:
         self.expr = _as_expression(node.body)  # type: ignore[attr-defined]
         self.proc = self.expr is None and _is_procedure(node.body)  # type: ignore[attr-defined]
         self.structured: Optional[List[ast.stmt]] = None
+        self.loopconst = False
         if self.expr is None and not self.proc and not any(
                 isinstance(x, (ast.Yield, ast.YieldFrom, ast.Await))
                 for x in _walk_scope(node)):
@@ -438,6 +464,10 @@ class _Helper:
             if st is not None:
                 self.structured = st
                 self.proc = True
+            else:
+                self.loopconst = _loop_const_shape(_strip_doc(node.body))  # type: ignore
+                if self.loopconst:
+                    self.proc = True
 
     def bind(self, call: ast.Call, recv: Optional[ast.AST]) -> Optional[Dict[str, ast.AST]]:
         params = list(self.params)
@@ -640,6 +670,30 @@ def _inline_proc_calls(fn: ast.AST, helpers, cls, counter: List[int]) -> int:
                 block[i:i + 1] = new or [ast.Pass()]
                 n += 1
                 i += len(new) or 1
+                continue
+            if h.loopconst:
+                if how != "assign":
+                    i += 1
+                    continue
+                tg = st.targets
+
+                class _RetBreak(ast.NodeTransformer):
+                    def visit_Return(self, node: ast.Return):
+                        return [ast.Assign(targets=copy.deepcopy(tg), value=node.value),
+                                ast.Break()]
+
+                    def visit_FunctionDef(self, node):
+                        return node
+                    visit_Lambda = visit_FunctionDef
+                first = ast.Assign(targets=copy.deepcopy(tg), value=body[-1].value)
+                new = [first] + pre + body[:-2] + [_RetBreak().visit(body[-2])]
+                for s_ in new:
+                    for x in ast.walk(s_):
+                        if not hasattr(x, "lineno"):
+                            ast.copy_location(x, st)
+                block[i:i + 1] = new
+                n += 1
+                i += len(new)
                 continue
             if body and isinstance(body[-1], ast.Return):
                 ret = body[-1].value
